@@ -47,6 +47,8 @@ def run(ctx):
     from . import storage
     storage.appender_callers(ctx, s, need_write_txn=False)
     storage.append_order_in_dependency(ctx, s)
+    storage.growth_monotone(ctx, s)
+    storage.no_cached_map_pointers(ctx, s)
 
 
 def reloc(ctx, s):
